@@ -189,6 +189,12 @@ func vfaState(program []byte, provideBlobs [][]byte) (types.PartialStateSet, typ
 	}
 	d := service_account.GetServiceAccountDerivatives(self)
 	self.ServiceInfo.Items, self.ServiceInfo.Bytes = d.Items, d.Bytes
+	// the three storage entries that exist only as raw key-values count in the footprint as well
+	for _, e := range [][2]string{{"kx", "\x05"}, {"ka", "\x07\x07\x07"}, {"kz", "\x06"}} {
+		i, o := service_account.CalcStorageItemfootprint(e[0], types.ByteSequence(e[1]))
+		self.ServiceInfo.Items += i
+		self.ServiceInfo.Bytes += o
+	}
 	dest := types.ServiceAccount{
 		ServiceInfo:    types.ServiceInfo{CodeHash: types.OpaqueHash{9}, Balance: 5},
 		PreimageLookup: types.PreimagesMapEntry{},
@@ -367,6 +373,8 @@ func (rn *vfaRunner) run(program []byte, gas uint64) vfaRun {
 
 func vfaProgram(calls []any, k int, ending string) (blob []byte, costs []int, endInstr int) {
 	a := &vfaAsm{}
+	a.ins(40, 5, 0, 0, 0) // the accumulate entry point is instruction counter 5: a jump there fills 0..4 (never executed)
+	a.n = 0
 	for i := 0; i < k; i++ {
 		n0 := a.n
 		a.call(calls[i].(map[string]any))
